@@ -123,6 +123,7 @@ def build(spec):
         if spec["kind"] == "Converter" and not is_table(p["eff"]):
             p["eff"] = float(p["eff"])
         path = "comp_%s.toml" % abs(hash_name(spec["name"]))
+        CURRENT_WORLD.file_built = getattr(CURRENT_WORLD, "file_built", 0) + 1
         CURRENT_WORLD.disk.files[path] = "\n".join(write_toml(spec["kind"], p, copy.deepcopy(spec.get("lim")))) + "\n"
         return cls.from_file(spec["name"], fname=path)
     kw = copy.deepcopy(spec["p"])
